@@ -186,9 +186,17 @@ Definition six : list Z := [0; 1; 2; 3; 4; 5].
 Definition succs (m : rmachine) (c : chip) : list chip :=
   filter (chip_alive m) (map (spec_step m c) (filter (link_alive m c) six)).
 
+(* the chips from which c may be reached in one hop: among the six chips one step back (modulo the machine
+   dimensions), those with a working link that leads to c *)
+Definition spec_step_back (m : rmachine) (c : chip) (l : Z) : chip :=
+  match dir_vec l with
+  | Some (dx, dy) => ((fst c - dx) mod rm_w m, (snd c - dy) mod rm_h m)
+  | None => c
+  end.
+
 Definition preds (m : rmachine) (c : chip) : list chip :=
   filter (fun c' => existsb (fun l => link_alive m c' l && chip_eqb (spec_step m c' l) c) six)
-         (live_chips m).
+         (map (spec_step_back m c) six).
 
 Definition add_new (sf : list chip * list chip) (n : chip) : list chip * list chip :=
   if chip_mem n (fst sf) then sf else (fst sf ++ [n], snd sf ++ [n]).
